@@ -174,6 +174,10 @@ func runBuilt(c gpack.Case, sp *gpack.Spec, p pack.Pack) *pbt.Result {
 		if left != len(extra) {
 			return pbt.Fail("%s: decoding consumed %d of the %d-byte encoding (%d foreign bytes appended, %d unread)", c.Type, len(buf)-left, len(b), len(extra), left)
 		}
+		// the receiver re-uses its buffer for the next message: the decoded pack must own what it holds
+		for i := range buf {
+			buf[i] = 0xA5
+		}
 		if d := rfl.Diff(canonP, gpack.Canon(q), ignoreFor(sp)); d != "" {
 			return pbt.Fail("%s: decoded pack differs from the original in a carried field: %s", c.Type, d)
 		}
@@ -193,8 +197,22 @@ func runBuilt(c gpack.Case, sp *gpack.Spec, p pack.Pack) *pbt.Result {
 			}
 			return pbt.Fail("%s: re-encoding the decoded pack differs at offset %d (%d vs %d bytes)", c.Type, k, len(re), len(bN))
 		}
+		var canonQ []rfl.KV
+		if gpack.Aux(p) != nil {
+			canonQ = gpack.Canon(q)
+		}
 		if err := containerChecks(sp, p, q); err != nil {
 			return &pbt.Result{Err: fmt.Errorf("%s: %v", c.Type, err)}
+		}
+		// reading the records / tables of a decoded pack (what containerChecks just did through the public accessors)
+		// is not a change of the pack: its fields are what they were and it encodes as before
+		if canonQ != nil {
+			if d := rfl.Diff(canonQ, gpack.Canon(q), nil); d != "" {
+				return pbt.Fail("%s: reading the records of the decoded pack through its accessors changed the pack: %s", c.Type, d)
+			}
+			if re := encode(sp, q); !bytes.Equal(re, bN) && !(f38Applies(p) && len(re) == len(bN)) {
+				return pbt.Fail("%s: after its records were read through the accessors the decoded pack re-encodes differently (%d vs %d bytes)", c.Type, len(re), len(bN))
+			}
 		}
 	}
 	nd, tot := rfl.NonDefault(canonP)
